@@ -846,10 +846,10 @@ impl Interp {
             }
         }
         #[cfg(feature = "decoder")]
-        if self.decode_every_commit && self.last_commit_durable && what == "commit" {
+        if self.decode_every_commit && self.last_commit_durable && (what == "commit" || what == "compact" || what == "check_integrity") {
             let img = self.backend.image();
             crate::decheck::check_against_model(&img, &self.committed, false)
-                .map_err(|e| format!("independent decoder on the image after a durable commit: {e}"))?;
+                .map_err(|e| format!("independent decoder on the image after a durable {what}: {e}"))?;
             self.decoded_images += 1;
         }
         Ok(())
